@@ -245,6 +245,11 @@ def mapSet (key : K) (v : V) : List (K × V) → List (K × V)
   | [] => [(key, v)]
   | (k, x) :: rest => if k = key then (k, v) :: rest else (k, x) :: mapSet key v rest
 
+/-- Go `delete(data, key)` -/
+def mapDel (key : K) : List (K × V) → List (K × V)
+  | [] => []
+  | (k, x) :: rest => if k = key then rest else (k, x) :: mapDel key rest
+
 def mapGet (key : K) : List (K × V) → Option V
   | [] => none
   | (k, x) :: rest => if k = key then some x else mapGet key rest
